@@ -58,8 +58,8 @@ MUTANTS = [
      ("mc/MC_W3C.tla", "WSpec", dict(co.W3C_CONST, MaxLen=3, Classes="{1,2,3,4,5,6,7,8,9,10,11,12,13,14}")), ["Inv_C20"], {}),
     ("ref-order-identifier-first", "Refs.tla", "Lt(a, b) == LexLT(a.p, b.p) \\/ (a.p = b.p /\\ LexLT(a.id, b.id))", "Lt(a, b) == LexLT(a.p \\o Colon \\o a.id, b.p \\o Colon \\o b.id)", "other",
      ("mc/MC_Refs.tla", "RSpec", {"FoldMap": "<- Fold", "MaxRefs": 2}), ["Inv_C15"], {}),
-    ("bulk-write-while-converting", "Bulk.tla", "ELSE buf' = Append(buf, ConvertRow(job.c, job.meth, job.md, row, job.col)) /\\ UNCHANGED <<disk, pc, job>>",
-     "ELSE buf' = Append(buf, ConvertRow(job.c, job.meth, job.md, row, job.col)) /\\ disk' = job.header \\o buf' /\\ UNCHANGED <<pc, job>>", "other",
+    ("bulk-write-while-converting", "BulkMachine.tla", "ELSE buf' = Append(buf, Conv(job, row)) /\\ UNCHANGED <<disk, pc, job>>",
+     "ELSE buf' = Append(buf, Conv(job, row)) /\\ disk' = job.header \\o buf' /\\ UNCHANGED <<pc, job>>", "other",
      ("mc/MC_Bulk.tla", "MSpec", {"FoldMap": "<- Fold", "MaxRows": 2}), ["Inv_Atomic"], {}),
     ("jsonld-expanded-synonym-without-prefix", "Writers.tla", "[k \\in 1..Len(e) |-> <<e[k][1], <<IF expand THEN \"pdict\" ELSE \"str\", e[k][2]>>>>]",
      "[k \\in 1..Len(e) |-> <<e[k][1], IF expand /\\ k > 1 THEN <<\"other\">> ELSE <<IF expand THEN \"pdict\" ELSE \"str\", e[k][2]>>>>]", "other",
